@@ -22,7 +22,7 @@ class NotConst(Exception):
     pass
 
 NOOP_EXTERNS = {'fprintf', 'fputs', 'fputc', 'fflush', 'fwrite', 'printf', 'puts', 'putchar', 'vfprintf',
-                '__cxa_atexit', '__cxa_thread_atexit', '__cxa_guard_release', '__cxa_guard_abort',
+                '__cxa_atexit', '__cxa_guard_release', '__cxa_guard_abort',
                 '__cxa_free_exception', '__cxa_end_catch', '_ZNSt8ios_base4InitC1Ev', '_ZNSt8ios_base4InitD1Ev',
                 '__cxa_call_unexpected'}
 SKIP_INTRINSICS = ('llvm.lifetime.', 'llvm.dbg.', 'llvm.assume', 'llvm.experimental.noalias', 'llvm.invariant.',
@@ -487,6 +487,17 @@ class Emitter:
             if not n.startswith('verif_'): o.append(proto)
         o += protos
         o += bodies
+        # dispatcher for destructors registered with __cxa_thread_atexit: void f(void*)
+        o.append('void ir_call_vp(uint64_t fn, uint64_t arg) {')
+        o.append('  switch (fn) {')
+        for n in self.rfuncs:
+            f = m.funcs[n]
+            if f.blocks is None or f.vararg or n not in self.addr_taken: continue
+            if self.resolve(f.ret)[0] == 'void' and len(f.params) == 1 and self.ctype(f.params[0][0]) == 'uint64_t':
+                o.append('    case UINT64_C(%d): %s(arg); break;' % (self.faddr[n], self.cname(n)))
+        o.append('    default: IR_CHECK(0, "ir_call_vp: unknown function address");')
+        o.append('  }')
+        o.append('}')
         o.append('void ir_global_ctors(void) {')
         for f in self.ctor_funcs:
             o.append('  %s();' % self.cname(f))
